@@ -55,6 +55,8 @@ func main() {
 		modeC12(*thorough)
 	case "c01":
 		modeC01(*thorough)
+	case "c17":
+		modeC17(*rules)
 	case "c13":
 		modeC13(*rules, *thorough)
 	case "c08":
